@@ -146,3 +146,61 @@ package core
 //@   assert[order@C01] at call conn.write#0 :: cl(c).count == 0
 //@   loop 0
 //@     invariant c != nil && c.loop != nil && EngineGlobal != nil && el.eventHandler != nil && c.opened
+
+//@ func slotReplicaset.Reset
+//@   props C14
+//@   requires sr != nil
+//@   modifies array(sr)
+//@   ensures[cleared@C14] forall k int :: (0 <= k && k < 16384) ==> sr[k] == nil
+//@   loop 0
+//@     modifies array(sr)
+//@     invariant 0 <= i && i <= 16384 && (forall k int :: (0 <= k && k < i) ==> sr[k] == nil)
+
+// eventloop.ticker (C14, C04): once a changed topology is published, the slot table is rebuilt from it: a slot maps
+// to a replica set of the published list whose master claims the slot, and to nothing iff no master claims it.
+//@ define RS() = EngineGlobal.ClusterNodes.Replicasets
+//@ define S2N(i) = EngineGlobal.Slots2Node[i]
+//@ define topook() = forall k int :: (0 <= k && k < len(RS())) ==> (RS()[k] != nil && RS()[k].Master != nil && (forall r int :: (0 <= r && r < len(RS()[k].Master.Slots)) ==>
+//@     (0 <= RS()[k].Master.Slots[r].Start && RS()[k].Master.Slots[r].Start < 16384 && 0 <= RS()[k].Master.Slots[r].End && RS()[k].Master.Slots[r].End < 16384)))
+//@ define covers(x, i) = exists r int :: 0 <= r && r < len(x.Master.Slots) && x.Master.Slots[r].Start <= i && i <= x.Master.Slots[r].End
+//@ define coversupto(x, i, b) = exists r int :: 0 <= r && r <= b && r < len(x.Master.Slots) && x.Master.Slots[r].Start <= i && i <= x.Master.Slots[r].End
+//@ define inRS(x) = exists k int :: 0 <= k && k < len(RS()) && RS()[k] == x
+//@ define claimedupto(i, a) = exists k int :: 0 <= k && k <= a && k < len(RS()) && covers(RS()[k], i)
+//@ define sound() = forall i int :: (0 <= i && i < 16384 && S2N(i) != nil) ==> (inRS(S2N(i)) && covers(S2N(i), i))
+
+//@ func eventloop.ticker
+//@   props C14 C04
+//@   requires EngineGlobal != nil && el.engine != nil && el.engine.opts != nil && el.eventHandler != nil && EngineGlobal.ProxyPool != nil
+//@   requires forall a string :: has(EngineGlobal.ProxyPool, a) ==> EngineGlobal.ProxyPool[a] != nil
+//@   requires topook() && heapslice(RS())
+//@   assume at call Pool.Close#0 :: pwf(v) && v.cancel != nil
+//@   assume at call Pool.SetIsSlave#0 :: pwf(pool)
+//@   assume at call typeassert#0 :: kv.Key != nil && dyntype(kv.Key) == typetag(string)
+//@   assume at call typeassert#1 :: dyntype(kv.Value) == typetag(*ClusterNode) && kv.Value != nil
+//@   assume at call typeassert#2 :: kv.Key != nil && dyntype(kv.Key) == typetag(string)
+//@   ensures[table.sound@C14,C04] (old(EngineGlobal.ClusterNodes.serverChanged) && !EngineGlobal.ClusterNodes.serverChanged) ==> sound()
+//@   ensures[table.complete@C14,C04] (old(EngineGlobal.ClusterNodes.serverChanged) && !EngineGlobal.ClusterNodes.serverChanged) ==> (forall i int :: (0 <= i && i < 16384 && claimedupto(i, len(RS()) - 1)) ==> S2N(i) != nil)
+//@   ensures[flag@C14] !EngineGlobal.ClusterNodes.serverChanged || (el.nextTicker == old(el.nextTicker) && old(EngineGlobal.ClusterNodes.serverChanged))
+//@   loop 0
+//@     invariant EngineGlobal != nil && el.engine != nil && el.engine.opts != nil && el.eventHandler != nil && EngineGlobal.ProxyPool != nil
+//@     invariant forall a string :: has(EngineGlobal.ProxyPool, a) ==> EngineGlobal.ProxyPool[a] != nil
+//@   loop 1
+//@     invariant EngineGlobal != nil && el.engine != nil && el.engine.opts != nil && el.eventHandler != nil && EngineGlobal.ProxyPool != nil
+//@     invariant forall a string :: has(EngineGlobal.ProxyPool, a) ==> EngineGlobal.ProxyPool[a] != nil
+//@   loop 2
+//@     invariant EngineGlobal != nil && 0 <= rangeindex + 1 && rangeindex + 1 <= len(RS())
+//@     invariant topook()
+//@     invariant sound()
+//@     invariant forall i int :: (0 <= i && i < 16384 && claimedupto(i, rangeindex)) ==> S2N(i) != nil
+//@   loop 3
+//@     invariant EngineGlobal != nil && topook() && 0 <= rangeindex#0 && rangeindex#0 < len(RS()) && rs == RS()[rangeindex#0] && 0 <= rangeindex#1 + 1 && rangeindex#1 + 1 <= len(rs.Master.Slots) && sound()
+//@     invariant forall i int :: (0 <= i && i < 16384 && (claimedupto(i, rangeindex#0 - 1) || coversupto(rs, i, rangeindex#1))) ==> S2N(i) != nil
+//@   loop 4
+//@     invariant EngineGlobal != nil && topook() && 0 <= rangeindex#0 && rangeindex#0 < len(RS()) && rs == RS()[rangeindex#0] && 0 <= rangeindex#1 && rangeindex#1 < len(rs.Master.Slots) && slotRange == rs.Master.Slots[rangeindex#1] && sound()
+//@     invariant slotRange.Start <= i && (slotRange.Start <= slotRange.End ==> i <= slotRange.End + 1)
+//@     invariant forall j int :: (0 <= j && j < 16384 && (claimedupto(j, rangeindex#0 - 1) || coversupto(rs, j, rangeindex#1 - 1) || (slotRange.Start <= j && j < i))) ==> S2N(j) != nil
+//@   loop 5
+//@     invariant EngineGlobal != nil && el.eventHandler != nil && EngineGlobal.ProxyPool != nil
+//@   loop 6
+//@     invariant EngineGlobal != nil && el.eventHandler != nil && EngineGlobal.ProxyPool != nil
+//@     invariant forall a string :: has(EngineGlobal.ProxyPool, a) ==> EngineGlobal.ProxyPool[a] != nil
